@@ -758,6 +758,8 @@ class ANF:
             gens = []
             for g in e.generators:
                 it = self.eval(g.iter, e2, cond, loops)
+                if it[0] == "new" and it[2] in ("list", "set", "dict"):
+                    it = ("list", ())               # a comprehension over a container that is (still) empty
                 if it[0] == "dict" and all(k_[0] in ("c", "k") and k_ != C("**") for k_, _ in it[1]):
                     it = ("list", tuple(k_ for k_, _ in it[1]))         # iterating a dictionary display iterates its keys
                 self._bound += 1
@@ -878,6 +880,8 @@ class ANF:
         if is_const(a) and b[0] in ("list", "tuple", "set") and all(is_const(x) for x in b[1]) and sym in ("in", "not in"):
             r = any(a[1] == x[1] for x in b[1])
             return C(r if sym == "in" else not r)
+        if sym in ("in", "not in") and ((b[0] == "new" and b[2] in ("list", "set", "dict")) or (b[0] in ("list", "tuple", "set") and not b[1])):
+            return C(sym == "not in")       # nothing is a member of a container that is (still) empty
         if sym in ("in", "not in") and b[0] in ("list", "tuple", "set") and len(b[1]) == 1:
             # membership in a one-element display is (in)equality with the element
             sym, b = ("==" if sym == "in" else "!="), b[1][0]
